@@ -853,6 +853,85 @@ def stability(citems, outl, k, orc, law, show_item=None):
     return []
 
 
+# ----------------------------------------------------------------------------------------
+# containment: `v in c` agrees with == on the elements (keys for maps), with `v in (c|list)`, with c[v], `not in`, the `in` test
+# ----------------------------------------------------------------------------------------
+CELEMS = [S("abc"), Y(b"abc"), S("abc", 1), S("abc", 2), S("a"), Y([97]), Y([97, 255]), S(""), I(1), F(1.0), B(1), N, U, L(I(1)), IT(0, I(1)),
+          S("1"), Y([49]), S("k3"), Y(b"k3"), T(I(1)), S("ab\0"), Y([97, 98, 0])]
+CBIG = [(S("k%d" % i), I(i)) for i in range(13)]
+
+
+def contain_cases(thorough):
+    conts = []
+    for e in CELEMS:
+        conts += [L(e), T(e), IT(0, e), IT(1, e), IT(2, e), L(I(7), e), M((e, I(1))), M((S("zz"), I(0)), (e, I(1)))]
+    conts += [L(), IT(0), M(), L(S("abc"), Y(b"abc")), L(Y(b"abc"), S("abc")), M((Y(b"abc"), I(1)), (S("abc"), I(2))), M((S("abc"), I(2)), (Y(b"abc"), I(1))),
+              M((S("abc"), I(1)), (S("a"), I(2))), M(*(CBIG + [(S("abc"), I(99))])), M(*(CBIG + [(Y(b"abc"), I(99))])), M(*([(Y(b"abc"), I(99)), (S("abc"), I(98))] + CBIG)),
+              M(*(CBIG + [(I(1), I(99))])), M(*(CBIG + [(B(1), I(99))])),
+              S("abc"), S("a1"), S(""), S("abc", 1), S("ab\0c"), Y(b"abc"), Y([97, 255]), Y([]),
+              I(1), N, U, B(1), F(1.0), P("x"), X("e")]
+    needles = CELEMS + [X("e"), I(7), S("zz")]
+    cases = []
+    for c in conts:
+        for v in needles:
+            if (c[0] == 's' or (c[0] == 'y' and all(b < 128 for b in c[1]))) and \
+               not (v[0] in ('s', 'i', 'x') or (v[0] == 'y' and all(b < 128 for b in v[1]))):
+                continue     # a needle that is not a string is searched by its rendering: modelled for integers only
+            cases.append((c, v))
+    return cases
+
+
+def contain_eq_pool():
+    vals = []
+    for v in CELEMS + [I(7), S("zz"), X("e")] + [k for k, _ in CBIG]:
+        if v not in vals: vals.append(v)
+    return vals
+
+
+def check_contain(c, v, out, eqt, order):
+    """laws on the implementation's answers [v in c, v not in c, v is in(c), v in (c|list), c[v] is defined]; eqt[(x, y)] = x == y"""
+    bad = []
+    if len(out) != 5 or any(not isinstance(x, int) for x in out):
+        return [("no-panic", "containment crashed or failed: %r" % (out,), None)]
+    tin, tnot, tis, tlist, tlook = out
+    if c[0] == 'x' or v[0] == 'x':
+        return []
+    def eq(x, y):
+        return eqt.get((ckeyc(x), ckeyc(y)))
+    if tin >= 100:
+        if c[0] in ('l', 't', 'it', 'm', 's', 'u', 'p'):
+            bad.append(("in-total", "`v in c` failed with error %s for a container" % ERR_NAMES.get(tin - 100, tin), None))
+        if tnot != tin: bad.append(("not-in", "`v not in c` gives %d while `v in c` fails" % tnot, None))
+        if tis != 0: bad.append(("in-test", "`v is in(c)` must be false when `v in c` fails", None))
+        return bad
+    if tnot != 1 - tin: bad.append(("not-in", "`v not in c` is %d while `v in c` is %d" % (tnot, tin), None))
+    if tis != tin: bad.append(("in-test", "`v is in(c)` is %d while `v in c` is %d" % (tis, tin), None))
+    if has_nan(v): return bad
+    if c[0] in ('l', 't', 'it'):
+        want = 1 if any(eq(e, v) == 1 for e in items_of(c)) else 0
+        if tin != want: bad.append(("in-agrees-with-eq", "`v in c` is %d but %s element of c is == v" % (tin, "an" if want else "no"), None))
+        if tlist != tin: bad.append(("in-agrees-with-list", "`v in (c|list)` is %d while `v in c` is %d" % (tlist, tin), None))
+    elif c[0] == 'm':
+        keys = [k for k, _ in sorted_pairs(c)]
+        classes = set()
+        for k in keys:
+            classes |= set(cross_classes(v, k))
+            if order == "insertion" and reordered(v, k): classes.add("map-insertion-order")
+        want = 1 if any(eq(v, k) == 1 for k in keys) else 0
+        if tin != want: bad.append(("in-agrees-with-eq", "`v in c` is %d but %s key of c is == v" % (tin, "a" if want else "no"), classes))
+        if tlook != tin: bad.append(("in-agrees-with-lookup", "`c[v] is defined` is %d while `v in c` is %d" % (tlook, tin), classes))
+        if tlist != tin: bad.append(("in-agrees-with-list", "`v in (c|list)` is %d while `v in c` is %d" % (tlist, tin), classes))
+    elif c[0] == 's' and v[0] == 's':
+        hay, nd = "".join(chr(x) for x in c[2]), "".join(chr(x) for x in v[2])
+        if tin != (1 if nd in hay else 0): bad.append(("in-substring", "`v in c` is %d for strings but v is%s a substring of c" % (tin, "" if nd in hay else " not"), None))
+    return bad
+
+
+def ckeyc(v):
+    """table key for the containment laws: strings without representation / safe flag"""
+    return ckey(v)
+
+
 def filter_key_pool():
     """every value the filter laws compare: items, attribute values, case-folded keys, defaults"""
     vals = []
@@ -1030,14 +1109,39 @@ def main():
                     hist["filter=" + FNAME[c[1]]] += 1
                     if out and out[0] == 0 and len(out) > 6: nontriv.add(tuple(c))
             missing |= orc.missing
-        for what, rr, cs in (("pair", r, pcases), ("filter", rf, fcases)):
+        # ---------------- mode C: containment ----------------
+        if chk.replay:
+            ccs = [(tuple_deep(rp["container"]), tuple_deep(rp["needle"]))] if (rp and "container" in rp) else []
+        else:
+            ccs = contain_cases(chk.thorough)
+        ccs = [(c, v) for (c, v) in ccs if not (tgt.order == "insertion" and hash_dependent(c, v))]
+        ccases = [[2] + flat(c) + flat(v) for (c, v) in ccs]
+        rc = corr_t(chk, tgt, ccases, 6)
+        ep = contain_eq_pool()
+        epc = [pair_case(a, b) for a in ep for b in ep]
+        for rel in (False, True):
+            prof = "release" if rel else "debug"
+            eo = run_lines([tgt.bins[rel]], epc) if ccases else []
+            eqt = {}
+            for idx, o in enumerate(eo):
+                i, j = divmod(idx, len(ep))
+                if len(o) == 7: eqt[(ckeyc(ep[i]), ckeyc(ep[j]))] = o[0]
+            for ci, (c, v) in enumerate(ccs):
+                for law, msg, kcls in check_contain(c, v, rc["impl"][rel][ci], eqt, tgt.order):
+                    register(law, msg, {"container": c, "needle": v, "shown": {"container": show(c), "needle": show(v)}, "law": law, "observed": msg, "profile": prof,
+                                        "target": tgt.name, "implementation [v in c, v not in c, v is in(c), v in (c|list), c[v] is defined]": rc["impl"][rel][ci],
+                                        "how": "./check C07 --replay <this file>"}, kcls)
+        if tgt.order == "sorted":
+            hist["containment"] += len(ccases)
+        evaluations += (len(ccases) + len(epc)) * 2
+        for what, rr, cs in (("pair", r, pcases), ("filter", rf, fcases), ("containment", rc, ccases)):
             mm = [(i, rel) for i in range(len(cs)) for rel in sorted(rr["impl"]) if rr["impl"][rel][i] != rr["model"][i]]
             disagreements += len(mm)
             if mm:
                 i, rel = mm[0]
                 failures.append(("model and implementation disagree (%s, %s target)" % (what, tgt.name),
                                  {"theorem_or_correspondence": "correspondence C07.Runner.%s vs harness c07" % tgt.coq_run, "target": tgt.name, "case": cs[i],
-                                  "describe": fdescribe(cs[i]) if what == "filter" else [show(pool[k]) for k in keep[i]],
+                                  "describe": fdescribe(cs[i]) if what == "filter" else ([show(pool[k]) for k in keep[i]] if what == "pair" else [show(x) for x in ccs[i]]),
                                   "implementation": rr["impl"][rel][i][:80], "model": rr["model"][i][:80], "profile": "release" if rel else "debug"}))
             kernel_cases += rr.get("kernel_checked", 0)
             if not rr.get("kernel_ok", False):
@@ -1059,12 +1163,13 @@ def main():
                        "pairs: all %d ordered pairs of a %d-value pool (every kind, integer widths at their boundaries, floats by bit pattern incl. +-0/inf/NaN/2^53/2^63/2^64/2^127/2^128, "
                        "strings small/heap/safe, bytes, lists, tuples, sized+unsized lazy iterables, maps in both insertion orders, plain objects, nestings), all laws incl. %d triples per target and profile; "
                        "filters (17): exhaustive lists of length <= %d over 6-value pools x all keyword options (first %d cases) + maps over every ordered choice of <= 3 keys + container shapes + seeded long lists (up to 150 items); "
+                       "containment: `v in c` / `not in` / the `in` test / `v in (c|list)` / `c[v] is defined` for every needle of a 25-value pool (strings, UTF-8 and other bytes spelling the same text, numbers, bool, none, containers) in lists / tuples / lazy iterables / maps (1, 2 and 14 entries, string and bytes keys) / strings / bytes / scalars, against == on the elements resp. keys; "
                        "non-trivial = ordered pair of two different pool values + distinct filter case with a non-empty result (counted once, not per target)"
                        % (n * n, n, ntriples // max(1, 2 * len(targets)), 5 if chk.thorough else 4, exn))
     chk.cov["exhaustive"] = False
     chk.cov["exhaustive_subbox_cases"] = exn
     chk.cov["samples"] = samples
-    chk.cov["distribution"] = dict(collections.Counter({k: v for k, v in hist.items() if k.startswith("filter=")}) + collections.Counter(dict(kinds.most_common(25))))
+    chk.cov["distribution"] = dict(collections.Counter({k: v for k, v in hist.items() if k.startswith("filter=") or k == "containment"}) + collections.Counter(dict(kinds.most_common(25))))
     chk.cov["law_outcomes"] = dict(counts)
     chk.cov["impl_vs_model_disagreements"] = disagreements
     chk.cov["indexmap_pairs_left_out_as_hash_dependent"] = skipped_hash_dependent
